@@ -358,10 +358,65 @@ def pushed_node_for_index(ctx, planner, fn, cont, idx):
     return cands[0] if len(cands) == 1 else None
 
 
+PAIR_PRESERVING = ('std::iter::Iterator::skip', 'std::iter::Iterator::take', 'std::iter::Iterator::filter',
+                   'std::iter::Iterator::rev', 'std::iter::Iterator::peekable', 'std::iter::Iterator::by_ref',
+                   'std::iter::Iterator::skip_while', 'std::iter::Iterator::take_while', 'std::iter::Iterator::step_by')
+PLAIN_ITER = ('core::slice::<impl [T]>::iter', 'core::slice::<impl [T]>::iter_mut', 'std::collections::VecDeque::<T, A>::iter')
+
+
+def enumerate_base(elem_terms):
+    """elem_terms = {unwrap(next(A*(enumerate(iter(C)))))} with A* adaptors that keep (index, element) pairs intact:
+    returns the terms of the collection C (then element.1 is C[element.0]), else None"""
+    if len(elem_terms) != 1:
+        return None
+    n = next(iter(elem_terms))
+    if n[0] != 'unwrap' or len(n[1]) != 1:
+        return None
+    m = next(iter(n[1]))
+    if not (m[0] == 'call' and m[1] == 'std::iter::Iterator::next' and m[2]):
+        return None
+    it = m[2][0]
+    for _ in range(6):
+        if len(it) != 1:
+            return None
+        q = next(iter(it))
+        if q[0] == 'call' and q[1] in PAIR_PRESERVING and q[2]:
+            it = q[2][0]
+            continue
+        break
+    if len(it) != 1:
+        return None
+    q = next(iter(it))
+    if not (q[0] == 'call' and q[1] == 'std::iter::Iterator::enumerate' and q[2]):
+        return None
+    base = q[2][0]
+    if len(base) == 1:
+        r = next(iter(base))
+        if r[0] == 'call' and r[1] in PLAIN_ITER and r[2]:
+            return r[2][0]
+    return None
+
+
+def dealias_elements(ts):
+    """rewrite `E.1` (the element of `for (i, x) in C.iter().enumerate()`) to the equivalent `C[E.0]`, recursively"""
+    def rw(n):
+        if not isinstance(n, tuple) or not n:
+            return n
+        if n[0] == 'field' and n[2] == '1' and isinstance(n[1], frozenset):
+            c = enumerate_base(n[1])
+            if c is not None:
+                return ('index', rwset(c), frozenset([('field', n[1], '0')]))
+        return tuple(rwset(x) if isinstance(x, frozenset) else (tuple(rwset(y) if isinstance(y, frozenset) else y for y in x) if isinstance(x, tuple) and x and isinstance(x[0], frozenset) else x) for x in n)
+
+    def rwset(s):
+        return frozenset(rw(n) for n in s)
+    return rwset(ts)
+
+
 def norm_state(ctx, planner, fn, ts):
     """clone-transparent state terms in which <cont>[idx].state with idx the index of a node pushed in this
-    function is replaced by that node's state terms"""
-    ts = strip_clone(ts)
+    function is replaced by that node's state terms; elements of an enumerate() loop are written as indexed reads"""
+    ts = dealias_elements(strip_clone(ts))
     out = set()
     sfields = {c['state_field'] for c in planner['containers'].values()}
     for n in ts:
